@@ -19,8 +19,11 @@ What is NOT documented (and therefore only used where stated):
   vehicles chose the same customer in the same joint action (tie-break undocumented) and for the depot.
 * the action value num_customers+1 admitted by `action_spec` (DESIGN section 4 #11): no mask column exists.
 
-`constraints` needs the *initial* demands to recompute loads (served demands are zeroed in the state): the
-model remembers them per instance (keyed by the constant coordinate array) when it sees the reset state.
+`constraints` needs the *initial* demands and the vehicles' routes to recompute loads (served demands are
+zeroed in the state).  The routes are NOT read from the state's `order` array ("used for rendering"; which
+column belongs to which step is not documented, nor is the starting value of `step_count`): the C06 driver
+evaluates `constraints` on the reset state and then after every step, so the model records the sequence of
+`vehicles.positions` itself, per instance (keyed by the constant coordinate array).
 """
 from __future__ import annotations
 
@@ -53,48 +56,61 @@ class M(Model):
 
     def __init__(self, b):
         super().__init__(b)
-        g = b.env._generator
-        self.N = int(g.num_customers)
-        self.V = int(g.num_vehicles)
-        self.C = int(g._max_capacity)
-        self.map_max = float(g._map_max)
-        self.dmax = int(g._customer_demand_max)
-        self.max_start = float(g._max_start_window)
-        self.win_len = float(g._time_window_length)
-        self.early_rng = tuple(float(x) for x in g._early_coef_rand)
-        self.late_rng = tuple(float(x) for x in g._late_coef_rand)
+        g = getattr(b.env, "_generator", None)
+
+        def param(name, cast):
+            """generator parameter documented in Generator.__init__ (stored under a private name, on the env
+            and on the generator): None - and the checks that need it are skipped - if neither has it"""
+            for obj in (g, b.env):
+                if obj is not None and hasattr(obj, "_" + name):
+                    return cast(getattr(obj, "_" + name))
+            return None
+
+        self.N = int(param("num_customers", int))
+        self.V = int(param("num_vehicles", int))
+        self.C = param("max_capacity", int)
+        self.map_max = param("map_max", float)
+        self.dmax = param("customer_demand_max", int)
+        self.max_start = param("max_start_window", float)
+        self.early_rng = param("early_coef_rand", lambda t: tuple(float(x) for x in t))
+        self.late_rng = param("late_coef_rand", lambda t: tuple(float(x) for x in t))
         self.limit = 2 * self.N  # documented step limit
-        self._d0 = {}
+        self._hist = {}
 
     # ------------------------------------------------------------------ helpers
     def _key(self, s):
         return np.asarray(s.nodes.coordinates).tobytes()
 
-    def _remember(self, s):
-        if int(s.step_count) == 1 and not np.asarray(s.vehicles.distances).any():
-            if len(self._d0) > 4096:
-                self._d0.clear()
-            self._d0[self._key(s)] = np.asarray(s.nodes.demands).astype(np.int64).copy()
+    def _track(self, s):
+        """Record the vehicles' positions of the state sequence the C06 driver shows (reset state, then the state
+        after every step) -> {"d0": initial demands, "routes": per vehicle the nodes it *arrived* at} or None
+        when the beginning of the episode was not seen.  A state with every vehicle at the depot and nothing
+        driven yet starts a fresh record (it is, or is equivalent to, the reset state); showing the same state
+        twice (constraints + complete) records nothing new."""
+        key = self._key(s)
+        d = np.asarray(s.nodes.demands).astype(np.int64).reshape(-1)
+        pos = np.asarray(s.vehicles.positions).astype(np.int64).reshape(-1)
+        dist = np.asarray(s.vehicles.distances, np.float64).reshape(-1)
+        if not pos.any() and not dist.any():
+            if len(self._hist) > 1024:
+                self._hist.clear()
+            self._hist[key] = {"d0": d.copy(), "routes": [[] for _ in range(self.V)], "pos": pos.copy(),
+                               "sig": (pos.tobytes(), dist.tobytes(), d.tobytes())}
+            return self._hist[key]
+        rec = self._hist.get(key)
+        if rec is None:
+            return None
+        sig = (pos.tobytes(), dist.tobytes(), d.tobytes())
+        if sig != rec["sig"]:
+            for v in range(self.V):
+                # an arrival = the vehicle changed node (a vehicle kept where it was served nobody new)
+                if int(pos[v]) != int(rec["pos"][v]):
+                    rec["routes"][v].append(int(pos[v]))
+            rec["pos"], rec["sig"] = pos.copy(), sig
+        return rec
 
     def _steps_done(self, s):
-        return int(s.step_count) - 1  # step_count starts at 1
-
-    def _truncated(self, s):
-        return int(s.step_count) > self.limit
-
-    def _routes(self, s):
-        """per vehicle: nodes visited at steps 1..T, read from `order` (+ current position for the entry
-        that does not fit: order has 2N columns and column 0 is never written)."""
-        T = self._steps_done(s)
-        order = np.asarray(s.order).astype(np.int64)
-        pos = np.asarray(s.vehicles.positions).astype(np.int64)
-        routes = []
-        for v in range(self.V):
-            h = [int(x) for x in order[v, 1:min(T, order.shape[1] - 1) + 1]]
-            if T >= order.shape[1]:
-                h.append(int(pos[v]))
-            routes.append(h)
-        return routes
+        return int(s.step_count) - 1  # (solver only) step_count starts at 1 in the current implementation
 
     # ------------------------------------------------------------------ C04
     def legal(self, s):
@@ -223,14 +239,13 @@ class M(Model):
     # ------------------------------------------------------------------ C06
     def constraints(self, s):
         out = []
-        self._remember(s)
         N, V, C = self.N, self.V, self.C
         d = np.asarray(s.nodes.demands).astype(np.int64).reshape(-1)
         cap = np.asarray(s.vehicles.capacities).astype(np.int64).reshape(-1)
         pos = np.asarray(s.vehicles.positions).astype(np.int64).reshape(-1)
         if d.shape != (N + 1,) or cap.shape != (V,) or pos.shape != (V,):
             return [("state array shapes", f"{d.shape} {cap.shape} {pos.shape}")]
-        if (cap < 0).any() or (cap > C).any():
+        if (cap < 0).any() or (C is not None and (cap > C).any()):
             out.append(("vehicle load exceeds its capacity (remaining capacity outside 0..max_capacity)",
                         f"capacities={cap.tolist()} max_capacity={C}"))
         if (d < 0).any():
@@ -238,17 +253,12 @@ class M(Model):
         if ((pos < 0) | (pos > N)).any():
             out.append(("vehicle position outside 0..num_customers", f"positions={pos.tolist()}"))
             return out
-        d0 = self._d0.get(self._key(s))
-        if d0 is None:
+        rec = self._track(s)
+        if rec is None or C is None:
             return out
-        routes = self._routes(s)
+        d0, routes = rec["d0"], rec["routes"]
         served = {}
         for v, h in enumerate(routes):
-            if any(c < 0 or c > N for c in h):
-                out.append(("route holds a node outside 0..num_customers", f"vehicle {v} route={h}"))
-                return out
-            if h and h[-1] != int(pos[v]):
-                out.append(("vehicle position differs from the last node of its route", f"vehicle {v} route={h} position={int(pos[v])}"))
             load, worst = 0, 0
             for c in h:
                 if c == DEPOT:
@@ -275,30 +285,31 @@ class M(Model):
         return out
 
     def complete(self, s, ts):
-        if self._truncated(s):
-            return []  # ended at the documented step limit
-        out = []
         d = np.asarray(s.nodes.demands).astype(np.int64)
         pos = np.asarray(s.vehicles.positions).astype(np.int64)
-        if d.sum() != 0:
-            out.append(("episode ended before the step limit with unserved demand", f"demands={d.tolist()} step_count={int(s.step_count)}"))
-        if (pos != DEPOT).any():
-            out.append(("episode ended before the step limit with a vehicle away from the depot", f"positions={pos.tolist()}"))
-        d0 = self._d0.get(self._key(s))
-        if d0 is not None:
-            seen = sorted(c for h in self._routes(s) for c in h if c != DEPOT)
-            need = sorted(int(c) for c in np.flatnonzero(d0 > 0))
+        if d.sum() != 0 or (pos != DEPOT).any():
+            return []  # not ended by completion (the documented step limit; anything else is C11/C09's business)
+        out = []
+        rec = self._track(s)
+        if rec is not None:
+            seen = sorted(c for h in rec["routes"] for c in h if c != DEPOT)
+            need = sorted(int(c) for c in np.flatnonzero(rec["d0"] > 0))
             if seen != need:
                 out.append(("completed episode: served customers are not exactly the customers with demand",
                             f"served={seen} with demand={need}"))
         return out
 
     # ------------------------------------------------------------------ C08 (supplementary)
+    def _at_limit(self, ep):
+        """the episode ran into the documented step limit (2 * num_customers steps) - judged by the number of
+        steps played, not by the state's own counter"""
+        return len(ep.actions) >= self.limit
+
     def twin_applicable(self, ep):
-        return bool(ep.states) and not self._truncated(ep.states[-1])
+        return bool(ep.states) and not self._at_limit(ep)
 
     def objective(self, ep):
-        if not ep.states or self._truncated(ep.states[-1]):
+        if not ep.states or self._at_limit(ep):
             return None  # at the step limit both reward functions document an *estimate*
         s0 = ep.s0
         xy = np.asarray(s0.nodes.coordinates, np.float64)
@@ -330,19 +341,19 @@ class M(Model):
         xy = np.asarray(s0.nodes.coordinates)
         if xy.shape != (N + 1, 2):
             return [("coordinates shape", str(xy.shape))]
-        if not np.isfinite(xy).all() or (xy < 0).any() or (xy > self.map_max).any():
+        if not np.isfinite(xy).all() or (xy < 0).any() or (self.map_max is not None and (xy > self.map_max).any()):
             out.append(("coordinates outside [0, map_max]^2", f"min={xy.min()} max={xy.max()} map_max={self.map_max}"))
         d = np.asarray(s0.nodes.demands)
-        if d.shape != (N + 1,) or not np.issubdtype(d.dtype, np.integer):
-            return out + [("demands shape / dtype", f"{d.shape} {d.dtype}")]
-        d = d.astype(np.int64)
+        if d.shape != (N + 1,):  # (dtype conformance is C01's business)
+            return out + [("demands shape", f"{d.shape}")]
+        d = np.asarray(d, np.float64)
         if d[DEPOT] != 0:
-            out.append(("depot demand is not 0", str(int(d[DEPOT]))))
+            out.append(("depot demand is not 0", str(d[DEPOT])))
         if (d < 0).any():
             out.append(("negative demand", f"demands={d.tolist()}"))
-        if (d > self.C).any():
+        if self.C is not None and (d > self.C).any():
             out.append(("customer demand exceeds the vehicle capacity", f"demands={d.tolist()} capacity={self.C}"))
-        if (d > self.dmax).any():
+        if self.dmax is not None and (d > self.dmax).any():
             out.append(("customer demand exceeds customer_demand_max", f"demands={d.tolist()} max={self.dmax}"))
         ws, we = np.asarray(s0.windows.start, np.float64), np.asarray(s0.windows.end, np.float64)
         if ws.shape != (N + 1,) or we.shape != (N + 1,) or not (np.isfinite(ws).all() and np.isfinite(we).all()):
@@ -350,30 +361,32 @@ class M(Model):
         else:
             if (ws > we).any():
                 out.append(("time window start > end", f"start={short(ws)} end={short(we)}"))
-            if (ws < 0).any() or (ws > self.max_start).any() or (we > self.max_start + self.win_len + 1e-4).any():
-                out.append(("time window outside [0, max_start_window (+ window length)]",
-                            f"start max={ws.max()} end max={we.max()} max_start={self.max_start} length={self.win_len}"))
+            # "max_start_window: maximum value for the start window" (the window length is not a documented
+            # parameter, so nothing is demanded of the window ends beyond start <= end)
+            if (ws < 0).any() or (self.max_start is not None and (ws > self.max_start + 1e-4).any()):
+                out.append(("time window start outside [0, max_start_window]",
+                            f"start min={ws.min()} max={ws.max()} max_start={self.max_start}"))
         ce, cl = np.asarray(s0.coeffs.early, np.float64), np.asarray(s0.coeffs.late, np.float64)
         eps = 1e-6
-        if ce.shape != (N + 1,) or (ce[1:] < self.early_rng[0] - eps).any() or (ce[1:] > self.early_rng[1] + eps).any():
+        # "early_coef_rand / late_coef_rand: range for the early / late coefficient" (customers; what the depot's
+        # entry holds is not documented and not asserted)
+        if self.early_rng is not None and (ce.shape != (N + 1,) or (ce[1:] < self.early_rng[0] - eps).any()
+                                           or (ce[1:] > self.early_rng[1] + eps).any()):
             out.append(("early penalty coefficient outside its declared range", f"{short(ce)} range={self.early_rng}"))
-        if cl.shape != (N + 1,) or (cl[1:] < self.late_rng[0] - eps).any() or (cl[1:] > self.late_rng[1] + eps).any():
+        if self.late_rng is not None and (cl.shape != (N + 1,) or (cl[1:] < self.late_rng[0] - eps).any()
+                                          or (cl[1:] > self.late_rng[1] + eps).any()):
             out.append(("late penalty coefficient outside its declared range", f"{short(cl)} range={self.late_rng}"))
-        if ce.shape == (N + 1,) and cl.shape == (N + 1,) and (ce[DEPOT] != 0 or cl[DEPOT] != 0):
-            out.append(("depot has a time penalty coefficient", f"early={ce[DEPOT]} late={cl[DEPOT]}"))
         cap = np.asarray(s0.vehicles.capacities).astype(np.int64)
-        if cap.shape != (V,) or (cap != self.C).any():
+        if cap.shape != (V,) or (self.C is not None and (cap != self.C).any()):
             out.append(("initial vehicle capacity != max_capacity", f"{cap.tolist()} vs {self.C}"))
         pos = np.asarray(s0.vehicles.positions).astype(np.int64)
         if pos.shape != (V,) or (pos != DEPOT).any():
             out.append(("a vehicle does not start at the depot", str(pos.tolist())))
-        for f in ("local_times", "distances", "time_penalties"):
+        for f in ("local_times", "distances", "time_penalties"):  # "... thus far": nothing driven at reset
             x = np.asarray(getattr(s0.vehicles, f))
             if x.shape != (V,) or x.any():
                 out.append((f"initial vehicles.{f} not zero", short(x)))
-        m = np.asarray(s0.action_mask)
-        if m.shape != (V, N + 1) or not np.array_equal(m.astype(bool), self.legal(s0)):
-            out.append(("initial action_mask is not the documented function of demands/capacities", short(m)))
+        # (the initial action mask is judged by C04 on the reset state, not here)
         return out
 
     # ------------------------------------------------------------------ C12
